@@ -263,10 +263,12 @@ def instantiate(qf, univ, goal, rounds=2, extra_terms=(), budget=60000):
                     else:
                         for kind, key, argpos in ps:
                             if kind == 'sel':
-                                src = usage['sel'].get(key)
-                                if src is None and key is None:
-                                    src = terms
-                                for t in (src or {}).values():
+                                src = dict(usage['sel'].get(key) or {})
+                                if key is None and not src:
+                                    src = dict(terms)
+                                if key is not None:
+                                    src.update(usage['sel'].get('unk') or {})      # indices into arrays of unknown base
+                                for t in src.values():
                                     if argpos is not None:
                                         t = z3.simplify(t - argpos[1] if argpos[0] == 'minus' else t + argpos[1])
                                     cands[t.get_id()] = t
@@ -355,10 +357,9 @@ def term_usage(exprs, bound_ids):
             idx = x.arg(1)
             if idx.sort() == I and not _mentions(idx, bound_ids):
                 b = _base_array(x.arg(0))
-                key = b.get_id() if z3.is_const(b) else None
+                key = b.get_id() if z3.is_const(b) else 'unk'
                 sel.setdefault(key, {})[idx.get_id()] = idx
-                if key is not None:
-                    sel.setdefault(None, {})[idx.get_id()] = idx
+                sel.setdefault(None, {})[idx.get_id()] = idx
         elif kd == z3.Z3_OP_UNINTERPRETED and x.num_args() > 0 and not _mentions(x, bound_ids):
             apps.setdefault(x.decl().name(), []).append(x)
     for e in exprs:
@@ -474,7 +475,59 @@ def discharge(ob, timeout_ms=10000, rounds=2):
     return r
 
 
+_MUL = z3.Function('mul@abs', R, R, R)
+_DIV = z3.Function('div@abs', R, R, R)
+_IMUL = z3.Function('imul@abs', I, I, I)
+
+
+def abstract_nl(e, cache):
+    """replace every product of two non-numeral factors (and division by a non-numeral) by an uninterpreted
+    function application (commutativity by argument ordering).  The abstraction only forgets facts about
+    multiplication, so `unsat` of the abstracted query implies `unsat` of the original."""
+    i = e.get_id()
+    r = cache.get(i)
+    if r is not None:
+        return r
+    if not z3.is_app(e) or e.num_args() == 0:
+        cache[i] = e
+        return e
+    ch = [abstract_nl(c, cache) for c in e.children()]
+    kd = e.decl().kind()
+    if kd == z3.Z3_OP_MUL:
+        nums = [c for c in ch if z3.is_rational_value(c) or z3.is_int_value(c)]
+        rest = [c for c in ch if not (z3.is_rational_value(c) or z3.is_int_value(c))]
+        if len(rest) >= 2:
+            rest.sort(key=lambda c: c.get_id())
+            f = _MUL if e.sort() == R else _IMUL
+            acc = rest[0]
+            for c in rest[1:]:
+                acc = f(acc, c)
+            for c in nums:
+                acc = c * acc
+            cache[i] = acc
+            return acc
+    if kd == z3.Z3_OP_DIV and not (z3.is_rational_value(ch[1]) or z3.is_int_value(ch[1])):
+        r = _DIV(ch[0], ch[1])
+        cache[i] = r
+        return r
+    r = e.decl()(*ch) if kd != z3.Z3_OP_UNINTERPRETED or e.num_args() else e
+    cache[i] = r
+    return r
+
+
 def _check(assertions, timeout_ms):
+    # pass 1: products as uninterpreted terms (congruence + linear arithmetic): fast and robust when the contract's
+    # hints spell out the algebra; pass 2: the real nonlinear query
+    cache = {}
+    try:
+        s0 = z3.Solver()
+        s0.set('timeout', min(timeout_ms, 5000))
+        for a in assertions:
+            s0.add(abstract_nl(a, cache))
+        if s0.check() == z3.unsat:
+            return dict(status='proved', backend='z3-api(products abstracted)')
+    except z3.Z3Exception:
+        pass
     s = z3.Solver()
     s.set('timeout', timeout_ms)
     for a in assertions:
